@@ -12,6 +12,9 @@ CHECKS = {
  "C03": ("model-based history testing + derived-object oracle (every time window on a grid, per-time snapshots, aggregate(w) for every width) against a dict keyed by (time, node set)",
          "History machine for TemporalHypergraph incl. rejected times, keep_edges shrinks and the same node set at several times; after every step all queries over all windows (a,b) in -1..8 (also a>=b) and order/size filters; every 6 steps and at the end subhypergraph() snapshots and aggregate(w) for all widths are recomputed from the model, and the object is re-observed to be unchanged.",
          "2/C03", "trusted: RefTemporal model; times limited to 0..6 so that windows are exhaustive on the grid; remove_edges (temporal) not in the statement"),
+ "C04": ("model-based history testing + aggregation/overlap oracle against a dict keyed by (node set, layer)",
+         "History machine for MultiplexHypergraph (layered insertions incl. weighted batches with one node set in two layers, removals, keep_edges shrinks, weights, attribute helpers); after every step all queries are compared and aggregated_hypergraph()/edge_overlap are recomputed from the model, then the object is re-observed (incl. its hypergraph metadata) to be unchanged.",
+         "2/C04", "trusted: RefMultiplex model; layer registry only bounded (layers in use <= reported <= ever inserted)"),
  "C01": ("model-based history testing (Hypothesis-generated operation sequences vs. a dict/set reference model, full public observation after every step)",
          "Every generated history (<=50 public mutator calls incl. rejected ones, copies, batches) is replayed on a 150-line reference model; all public queries incl. every order/size/up_to filter are compared as multisets after every step. Finds history-dependent faults (stale/duplicated incidence entries, wrong-key tables); establishes nothing beyond the explored histories.",
          "2/C01", "trusted: RefHypergraph model, Hypothesis; unspecified corners are value sets or excluded (listed in evidence.assumptions)"),
